@@ -59,7 +59,9 @@ class ConstantFoldInterpPattern(RewritePattern):
                 for operand in op.operands
             )
             results = self.interpreter.run_op(op, args)
-        except InterpretationError:
+        except (InterpretationError, AssertionError, ArithmeticError):
+            # The interpreter cannot evaluate the operation on these operands (e.g.
+            # division by zero), leave it in place
             return
 
         new_ops: list[Operation] = []
